@@ -117,6 +117,10 @@ def evse_levels(e):
 
 
 def gen_world(rs: int, P: dict) -> dict:
+    rvar = sub(rs, "variant").random()
+    if rvar < P.get("long_chain", 0.02) and P["net"] == "custom":
+        # many sessions one after the other on one or two stations (a station's 10th, 20th, ... occupant)
+        P = dict(P, stations=(1, 2), horizon=(40, 90), sessions_cap=40, chain_fill=(0.97, 1.0), b2b=0.85, hot=0.05)
     r = sub(rs, "shape")
     n_st = r.randint(*P["stations"])
     names = STATION_NAMES[:n_st]
@@ -225,6 +229,9 @@ def gen_world(rs: int, P: dict) -> dict:
         "signals": wchoice(rsim, P["signals"]),
         "shuffle_events": rsim.randint(0, 10 ** 6),
     }
+    rsec = sub(rs, "start_seconds")
+    if rsec.random() < 0.15:
+        sim["start"] = sim["start"] + [rsec.choice([0, 1, 30, 59]), rsec.choice([0, 1, 500000, 999999])]   # seconds, microseconds
     ropt = sub(rs, "simopts")
     if ropt.random() < 0.06:
         sim["verbose"] = True          # rarely used public option (progress output goes to a sink)
@@ -290,6 +297,16 @@ def gen_world(rs: int, P: dict) -> dict:
     if not sessions:
         st = stations[0]
         sessions.append(_mk_session(rs, "%s_0" % st["id"], st["id"], 0, 2, stations, period, P))
+    ridle = sub(rs, "long_idle")
+    if ridle.random() < P.get("long_idle", 0.03):
+        # the simulation starts long before anything happens (hundreds of idle periods first)
+        off_ = ridle.choice([150, 300, 700])
+        for s_ in sessions:
+            s_["arrival"] += off_
+            s_["departure"] += off_
+            if "est_departure" in s_:
+                s_["est_departure"] += off_
+        hot = [h + off_ for h in hot]
     if sid_mode == "crossed" and P["net"] != "stochastic" and n_st >= 2:
         # session ids that are *other* stations' ids (a station-keyed lookup is then wrong, not absent)
         ids = [s["id"] for s in stations]
